@@ -32,14 +32,14 @@ import common
 from common import InfraError, Timer, match_known, rat, write_evidence, write_replay
 from gen import HistoryGen, gen_device
 from lockstep import Lockstep
-from realcode import BASIS_WIRE, Dev, RealSeq, real_name, wire_name
+from realcode import (BASIS_WIRE, Dev, RealSeq, real_name, wire_name, doc_is_detuned_delay,
+                      doc_phase_jump_time)
 from seqcheck import owner_of
 
 import pulser
 from pulser import Pulse
 from pulser.channels import DMM
 from pulser.sampler import sample
-from pulser.sequence._schedule import _ChannelSchedule
 
 PROP = "C06"
 LEAN_TARGETS = ["PulserModel.Sampler", "Proofs.Sampler", "Properties.C06", "Driver.SeqRender", "pmdriver"]
@@ -426,7 +426,7 @@ def compare_model(drv, real: RealSeq, weights: dict, mask, rng, stats) -> list[F
                 if d is not None:
                     fails.append(Fail("corr", "extend-" + qty, f"{name}.{qty} extended to {n_ext}: {d}", qty=qty))
     # per-atom view
-    in_xy = bool(seq._in_xy)
+    in_xy = any(sch.channel_obj.basis == "XY" for sch in seq._schedule.values())
     padded = [extend_model(e, mc, sch, T) for mc, e, (name, sch) in zip(model["chans"], exps, seq._schedule.items())]
     for al in (False, True):
         info = model["nested"]["true" if al else "false"]
@@ -456,7 +456,36 @@ def compare_model(drv, real: RealSeq, weights: dict, mask, rng, stats) -> list[F
 # monitor: the statement over the real objects, no model
 # ----------------------------------------------------------------------------------------------
 def is_dd(p) -> bool:
-    return bool(_ChannelSchedule.is_detuned_delay(p))
+    """Detuned delay, decided from the waveforms (not by the scheduler's own helper, which the sampler uses)."""
+    return bool(doc_is_detuned_delay(p))
+
+
+class Known:
+    """What the harness knows about the sequence from its own inputs (never read back from the
+    implementation): detuning-map weights per DMM channel and qubit index, SLM-mask targets,
+    which channels were left in EOM mode."""
+
+    def __init__(self):
+        self.weights: dict[str, list] = {}     # real channel name -> weight per qubit index
+        self.mask = None                        # qubit indices given to config_slm_mask
+        self.eom_open: dict[str, bool] = {}     # real channel name -> enable/disable_eom_mode log
+
+    def note(self, seq, op, status, before_names):
+        """Update from one applied op (`before_names`: channel names before it)."""
+        new = [n for n in seq._schedule if n not in before_names]
+        if op["k"] == "detmap" and status == "ok":
+            for n in new:
+                self.weights[n] = [float(x) for x in op["weights"]]
+        elif new and self.mask is not None:
+            # the DMM of an Ising SLM mask: weight 1 on the masked atoms, 0 elsewhere (config_slm_mask doc)
+            nq = len(seq.register.qubit_ids)
+            for n in new:
+                if n.startswith("dmm_") and n not in self.weights:
+                    self.weights[n] = [1.0 if i in self.mask else 0.0 for i in range(nq)]
+        if status == "ok" and op["k"] in ("eomon", "eommod"):
+            self.eom_open[real_name(op["ch"])] = True
+        elif status == "ok" and op["k"] == "eomoff":
+            self.eom_open[real_name(op["ch"])] = False
 
 
 def weight_of(det_map, pos) -> float:
@@ -473,8 +502,9 @@ def mod2pi_eq(a: np.ndarray, b: float, tol=1e-9) -> np.ndarray:
     return np.minimum(d, TWO_PI - d) <= tol
 
 
-def monitor_seq(real: RealSeq, user_pulses: set, rng, stats) -> list[Fail]:
+def monitor_seq(real: RealSeq, user_pulses: set, rng, stats, known: Known | None = None) -> list[Fail]:
     seq = real.seq
+    known = known or Known()
     fails: list[Fail] = []
     if not seq._schedule:
         return fails
@@ -486,7 +516,7 @@ def monitor_seq(real: RealSeq, user_pulses: set, rng, stats) -> list[Fail]:
     except NotImplementedError:
         raise
     except Exception as ex:  # noqa: BLE001
-        empty_eom = any(sch.eom_blocks and sch.get_duration() == 0 for sch in seq._schedule.values())
+        empty_eom = any(sch.eom_blocks and (not sch.slots or sch.slots[-1].tf == 0) for sch in seq._schedule.values())
         dmm = getattr(seq, "_slm_mask_dmm", None)
         half_slm = bool(seq._in_ising and dmm and dmm in seq._schedule
                         and not getattr(seq._schedule[dmm], "_waiting_for_first_pulse", True)
@@ -495,8 +525,11 @@ def monitor_seq(real: RealSeq, user_pulses: set, rng, stats) -> list[Fail]:
             "eom-on-empty-channel" if empty_eom else "other")
         return [Fail("monitor", "sample-raises", f"sample(seq) raises {type(ex).__name__}: {ex}",
                      exc=type(ex).__name__, cause=cause)]
-    T = samples.max_duration
-    in_xy = bool(seq._in_xy)
+    T = max([int(sch.slots[-1].tf) for sch in seq._schedule.values() if sch.slots] + [0])
+    if samples.max_duration != T:
+        return [Fail("monitor", "array-length", f"max_duration {samples.max_duration}, longest channel ends at {T}")]
+    in_xy = any(sch.channel_obj.basis == "XY" for sch in seq._schedule.values())
+    qidx = {q: i for i, q in enumerate(qids)}
     chinfo = []
     for name, sch in seq._schedule.items():
         cs = samples.channel_samples[name]
@@ -529,7 +562,7 @@ def monitor_seq(real: RealSeq, user_pulses: set, rng, stats) -> list[Fail]:
         else:
             ep = np.full(n, float(real_p[0][1].type.phase))
             for (_, prev), (_, nxt) in zip(real_p, real_p[1:]):
-                ep[max(nxt.ti - ch.phase_jump_time, prev.tf):] = float(nxt.type.phase)
+                ep[max(nxt.ti - doc_phase_jump_time(ch), prev.tf):] = float(nxt.type.phase)
             for i, s in real_p:
                 if np.any(PH[s.ti:s.tf] != float(s.type.phase)):
                     fails.append(Fail("monitor", "phase-on-pulse",
@@ -558,8 +591,11 @@ def monitor_seq(real: RealSeq, user_pulses: set, rng, stats) -> list[Fail]:
             warnings.simplefilter("ignore")
             x = cs.extend_duration(n_new)
         XA, XD, XP = arr(x.amp), arr(x.det), arr(x.phase)
-        still = bool(sch.eom_blocks) and sch.eom_blocks[-1].tf is None
-        off = float(sch.eom_blocks[-1].detuning_off) if still else 0.0
+        # still in EOM mode: from the harness' own log of enable/disable calls when it has one
+        still = known.eom_open[name] if name in known.eom_open else (
+            bool(sch.eom_blocks) and sch.eom_blocks[-1].tf is None)
+        # (the value of detuning_off chosen by enable_eom_mode is C15's; read from the schedule)
+        off = float(sch.eom_blocks[-1].detuning_off) if (still and sch.eom_blocks) else 0.0
         okx = (len(XA) == len(XD) == len(XP) == n_new and np.array_equal(XA[:n], A, equal_nan=True)
                and np.array_equal(XD[:n], D, equal_nan=True)
                and np.array_equal(XP[:n], PH) and np.all(XA[n:] == 0) and np.all(XD[n:] == off)
@@ -578,7 +614,10 @@ def monitor_seq(real: RealSeq, user_pulses: set, rng, stats) -> list[Fail]:
     if fails:
         return fails
     # M6/M7 per-atom view
-    mask_t = set(seq._slm_mask_targets) if in_xy else set()
+    if known.mask is not None:
+        mask_t = {qids[i] for i in known.mask} if in_xy else set()
+    else:
+        mask_t = set(seq._slm_mask_targets) if in_xy else set()
     mask_end = 0
     if mask_t:
         firsts = []
@@ -593,9 +632,12 @@ def monitor_seq(real: RealSeq, user_pulses: set, rng, stats) -> list[Fail]:
             mask_end = next(f[1] for f in firsts if f[0] == t0)
         else:
             mask_t = set()
-    # times at which the statement fixes the per-atom values: below the end of every channel that is left in
-    # EOM mode with a non-zero off-detuning (after its end such a channel is padded with the off-detuning)
-    t_cmp = min([T] + [n for (_, _, _, n, *_r, still) in chinfo if still])
+    t_cmp = T
+
+    def eom_tail(basis, q, t) -> bool:
+        return any(c.basis == basis and st and n <= t and sc.slots and q in sc.slots[-1].targets
+                   for (_, sc, c, n, _A, _D, _P, _p, st) in chinfo)
+
     for al in (False, True):
         try:
             with warnings.catch_warnings():
@@ -611,10 +653,19 @@ def monitor_seq(real: RealSeq, user_pulses: set, rng, stats) -> list[Fail]:
         for basis in bases:
             for q in qids:
                 ea, ed = np.zeros(T), np.zeros(T)
-                for name, sch, ch, n, A, D, PH, pulses, _ in chinfo:
+                for name, sch, ch, n, A, D, PH, pulses, still_off in chinfo:
                     if ch.basis != basis:
                         continue
-                    w = weight_of(sch.detuning_map, seq.register.qubits[q]) if isinstance(ch, DMM) else 1.0
+                    if not isinstance(ch, DMM):
+                        w = 1.0
+                    elif name in known.weights:
+                        w = known.weights[name][qidx[q]]
+                    else:
+                        w = weight_of(sch.detuning_map, seq.register.qubits[q])
+                    # a channel left in EOM mode keeps idling at its off-detuning on the atoms it targets for
+                    # as long as the sequence lasts ("extending pads with the off-detuning if still in EOM mode")
+                    if still_off and n < T and sch.slots and q in sch.slots[-1].targets:
+                        ed[n:T] += float(sch.eom_blocks[-1].detuning_off) * w
                     for i, s in pulses:
                         if q not in s.targets:
                             continue
@@ -638,8 +689,9 @@ def monitor_seq(real: RealSeq, user_pulses: set, rng, stats) -> list[Fail]:
                         masked = bool(in_xy and q in mask_t and t < mask_end)
                         fails.append(Fail("monitor", "per-atom-" + qty,
                                           f"all_local={al} {basis} atom {q}: {qty} at t={t} is {y[t]!r}, the pulses "
-                                          f"targeting it give {x[t]!r}" + (" (masked atom, mask on)" if masked else ""),
-                                          qty=qty, masked=masked))
+                                          f"targeting it give {x[t]!r}" + (" (masked atom, mask on)" if masked else "")
+                                          + (" (after the end of a channel left in EOM mode)" if eom_tail(basis, q, t) else ""),
+                                          qty=qty, masked=masked, eom_tail=eom_tail(basis, q, t)))
                 stats["atom_ns"] += 2 * t_cmp
         # the phase of a pulse in the entry that carries it
         for k, (name, sch, ch, n, A, D, PH, pulses, _) in enumerate(chinfo):
@@ -662,10 +714,12 @@ def monitor_seq(real: RealSeq, user_pulses: set, rng, stats) -> list[Fail]:
                         elif q not in mask_t:
                             win = ts < start2
                     elif not entry_glob:
-                        for sl in samples.channel_samples[n2].slots:
+                        # (from the schedule: a pulse's window lasts at most until the next pulse starts)
+                        for j, (_i2, sl) in enumerate(p2):
                             lo2 = max(sl.ti, mask_end) if (in_xy and q in mask_t) else sl.ti
+                            hi2 = p2[j + 1][1].ti if j + 1 < len(p2) else T
                             if q in sl.targets:
-                                win |= (ts >= lo2) & (ts < sl.tf)
+                                win |= (ts >= lo2) & (ts < hi2)
                     if not win.any():
                         continue
                     ext_a = np.concatenate([A2, np.zeros(max(0, T - len2))])[a:b]
@@ -764,13 +818,14 @@ def run_case(drv, spec, ops_or_gen, exact, nops, seed, stats, every=None, mask="
     gen = None if isinstance(ops_or_gen, list) else ops_or_gen
     n = len(ops_or_gen) if gen is None else nops
     weights: dict[str, list] = {}
+    known = Known()
     user_pulses: set = set()
     every = every or rng.choice([3, 5, 8, 1000])
 
     def checkpoint(i, mask_targets=None):
         res.checkpoints += 1
         fs = compare_model(drv, ls.real, weights, mask_targets, rng, stats)
-        fs += monitor_seq(ls.real, user_pulses, rng, stats)
+        fs += monitor_seq(ls.real, user_pulses, rng, stats, known)
         res.fails += [(i, f) for f in fs]
 
     for i in range(n):
@@ -780,6 +835,7 @@ def run_case(drv, spec, ops_or_gen, exact, nops, seed, stats, every=None, mask="
         nslots = {n: len(x.slots) for n, x in ls.real.seq._schedule.items()}
         st = ls.step(op)
         note_user_pulse(ls.real.seq, op, nslots, user_pulses)
+        known.note(ls.real.seq, op, st.real[0], before)
         res.nsteps += 1
         res.status.append(st.real)
         if gen is not None:
@@ -817,6 +873,7 @@ def run_case(drv, spec, ops_or_gen, exact, nops, seed, stats, every=None, mask="
                     warnings.simplefilter("ignore")
                     seq.config_slm_mask([ls.real.dev.qids[q] for q in targets])
                 res.mask = targets
+                known.mask = list(targets)
                 res.features.add("xy-mask")
                 checkpoint(res.nsteps - 1, targets)
             except (ValueError, RuntimeError):
@@ -866,6 +923,7 @@ def run_slm_case(case: dict, stats, seed) -> CaseResult:
     ops = case.get("ops")
     n = len(ops) if ops is not None else case["n"]
     user_pulses: set = set()
+    known = Known()
     done = False
 
     def slm(qs):
@@ -876,8 +934,11 @@ def run_slm_case(case: dict, stats, seed) -> CaseResult:
         try:
             with warnings.catch_warnings():
                 warnings.simplefilter("ignore")
+                before = set(real.seq._schedule)
                 real.seq.config_slm_mask([real.dev.qids[q] for q in qs])
             res.mask = qs
+            known.mask = list(qs)
+            known.note(real.seq, dict(k="slm"), "ok", before)
         except Exception:  # noqa: BLE001  (refused: measured, configured twice, …)
             pass
 
@@ -892,9 +953,11 @@ def run_slm_case(case: dict, stats, seed) -> CaseResult:
             continue
         res.ops.append(op)
         nslots = {n: len(x.slots) for n, x in real.seq._schedule.items()}
+        before = set(real.seq._schedule)
         status, _ = real.apply(op)
         res.status.append((status, _))
         note_user_pulse(real.seq, op, nslots, user_pulses)
+        known.note(real.seq, op, status, before)
         if gen is not None:
             gen.feedback(op, status, real)
         if status == "ok" and op["k"] in ("add", "addeom", "adddmm"):
@@ -904,7 +967,7 @@ def run_slm_case(case: dict, stats, seed) -> CaseResult:
     res.nsteps = len(res.ops)
     res.features.add("slm-" + case["mode"] if res.mask else "slm-refused")
     try:
-        fs = monitor_seq(real, user_pulses, rng, stats)
+        fs = monitor_seq(real, user_pulses, rng, stats, known)
     except NotImplementedError:
         fs = []
     res.fails = [(res.nsteps - 1, f) for f in fs]
